@@ -1187,6 +1187,7 @@ def run(rep, facts, tier):
                     s['fn'], s['at'])
     rep.floor('C08 panic-capable sites', n_sites, 250)
     check_recursion(rep, fx, reach)
+    check_unmetered_growth(rep, fx)
     stale = sorted(set(table) - used)
     for k in stale:
         rep.note('reviewed table entry no longer matches any site (stale): %s' % k)
@@ -1202,9 +1203,34 @@ RECURSION_REVIEWED = {
                                               'running code first (instruction limit / modest allocation, the property\'s provisos)',
     'bitstr_ext::bitstr_concat': 'depth = nesting depth of the vector argument (same proviso)',
     'state::join_str_vec': 'depth = nesting depth of the vector argument (same proviso)',
-    'state::State::next_token': 'one level per input exhausted at the same moment: bounded by the include nesting, each level a file that was opened',
     'state::State::fetch_and_run': 'Resolve re-dispatches the instruction it has just patched, which is no longer Resolve: depth 1',
 }
+
+
+def check_unmetered_growth(rep, fx):
+    """Reading sources executes no instruction: neither the instruction limit nor the stack / heap limits stop a file that
+    includes itself.  Every growth of the stack of pending inputs must sit behind a test of its length (a crash by memory
+    exhaustion is a crash)."""
+    from .. import awrite
+    tracked = awrite.state_tracked(fx)
+    W = awrite.all_field_writes(fx, 'state', tracked)
+    n = 0
+    for fn, ws in sorted(W.items()):
+        f = fx.fns[fn]
+        for w in ws:
+            if w['field'][0] != 'input' or not w['how'].startswith('call:grow'):
+                continue
+            n += 1
+            bounded = False
+            for (op, a, b) in guard_facts(f, w['bb']):
+                sa, sb = expr_str(strip(a), -12), expr_str(strip(b), -12)
+                if op in ('Lt', 'Le', 'Gt', 'Ge') and (('len' in sa and '.input' in sa) or ('len' in sb and '.input' in sb)):
+                    bounded = True
+            rep.add('C08', 'C08:pending-sources-bounded:%s' % fn, bounded,
+                    'D-GUARD: input.push() only below a bound on input.len()' if bounded else
+                    '%s stacks another pending source without a bound: `include` executes no instruction, so a file that includes itself is read '
+                    'until memory runs out, whatever limits are set' % short(fn), fn, w['at'])
+    rep.floor('C08 growth sites of the pending-input stack', n, 1)
 
 
 def check_recursion(rep, fx, reach):
